@@ -83,6 +83,7 @@ def create_drawdowns(returns):
     hwm = np.zeros(len(idx))
 
     # Create the high water mark
+    hwm[0] = returns.iloc[0]
     for t in range(1, len(idx)):
         hwm[t] = max(hwm[t - 1], returns.iloc[t])
 
